@@ -221,7 +221,36 @@ def signature(stream, case, msg):
         if s[0] == "spawn" and isinstance(s[1], list) and s[1][:1] == ["eager"] and acquires_prio(s[2]):
             return True
         return any(eager_with_lock(x) for x in s if isinstance(x, list))
-    return F18 if any(eager_with_lock(a) for a in case["acts"]) else None
+    if any(eager_with_lock(a) for a in case["acts"]):
+        return F18
+    return None
+
+
+F19 = "F19-eager-task_timeout-task-identity"
+
+
+def signature(stream, case, msg, _f18=signature):
+    """F18 (above) or known finding F19: task_timeout() entered in the synchronous prefix of a coroutine started
+    with eager() interrupts the parent task at the deadline.  Signature: the case contains a coroutine started
+    with eager() whose body contains a task_timeout block with a deadline."""
+    r = _f18(stream, case, msg)
+    if r:
+        return r
+
+    def has_timeout(s):
+        if not isinstance(s, list) or not s:
+            return False
+        if s[0] == "timeout" and s[1] is not None:
+            return True
+        return any(has_timeout(x) for x in s if isinstance(x, list))
+
+    def eager_with_timeout(s):
+        if not isinstance(s, list) or not s:
+            return False
+        if s[0] == "spawn" and isinstance(s[1], list) and s[1][:1] == ["eager"] and has_timeout(s[2]):
+            return True
+        return any(eager_with_timeout(x) for x in s if isinstance(x, list))
+    return F19 if any(eager_with_timeout(a) for a in case["acts"]) else None
 
 
 PROP = Prop(
